@@ -186,6 +186,15 @@ func TestVerifC18(t *testing.T) {
 			"a session that starts closing within 100 ms after a change/update is not required to receive its notification"},
 	}
 	vh.Run(t, cfg, func(c *vh.Case) {
+		if c.Index%25 == 3 {
+			// a raw 2026-07-28 peer whose listens name several URIs at once (c18raw_test.go)
+			spec := genC18Raw(c.R)
+			c.SetSpec(spec)
+			if c.Bubble("", func() { runC18Raw(c, spec) }) {
+				decideC18Raw(c, spec)
+			}
+			return
+		}
 		spec := genC18(c.R, c.Index)
 		c.SetSpec(spec)
 		var w *c18World
